@@ -33,16 +33,25 @@ ASSUMPTIONS = [
     'data_received / eof_received (no-peer case), which is what the model of the await in _forward relies on',
     'C20: class invariant "ordered" (_peer set => _inpbuf empty): writers covered = SSHForwarder.data_received, '
     'eof_received, close, SSHLocalForwarder._forward, SSHSOCKSForwarder.data_received and the ten SOCKS handlers; '
-    '__init__ (fresh object, empty buffer) and set_peer (only called from the peer\'s __init__ inside the window '
-    'above) are not under contract',
+    'the attach step is under contract too: SSHForwarder.__init__ (fresh object: empty buffer, peer told exactly '
+    'once, nothing else of the peer touched) and set_peer (only the link changes; it is only called from the '
+    'peer\'s __init__ inside the window above, which is why it need not re-establish "ordered" itself)',
     'C20: class invariant "armed" (_recv_handler set => transport open): writers covered = the ten handlers, '
     '_connect (inlined), SSHSOCKSForwarder.data_received and close() as resolved for a SOCKS forwarder; callers of '
     'close() use its contract (closed and disarmed) - the unchanged tree violates it (finding F5, reported at close)',
     'C20: ipaddress.ip_address / str(ip) are uninterpreted (total on 4- and 16-byte packed addresses, printed form '
     'not empty); decode_utf8 / decodable_utf8 are uninterpreted',
-    'C20: real TCP/UNIX sockets, loop.create_server and the listener classes beyond close()/get_port() being '
-    'called are not reached; SSHConnection._cleanup closing every listener is left to C09; tun/tap has no '
-    'permission gate in the code (recorded as an observation, no obligation)',
+    'C20: real TCP/UNIX sockets and loop.create_server are not reached (asyncio.Server.close() is an event); the '
+    'loop of SSHConnection._cleanup over _local_listeners is proved under C09 (conn_cleanup: '
+    'every-local-listener-closed), the listener side (SSHForwardListener.close, SSHClientListener.close/_close, '
+    'close_forward_listener, close_client_*_listener) and the listener-closing part of the client / server '
+    '_cleanup overrides are proved here; tun/tap has no permission gate in the code (observation, no obligation)',
+    'C20: this sidecar owns the FORWARDING gates (direct-tcpip, direct-streamlocal, tcpip-forward, '
+    'streamlocal-forward, X11, agent); enforcement of the other stored restrictions (no-pty, command= / '
+    'force-command, environment=) in channel.py (_process_pty_req_request, _start_session, '
+    'SSHServerChannel.__init__) is under contract in contracts/c05.py',
+    'C20: a dynamically bound port (port 0 requested) is not one this connection already listens on for that '
+    'address (operating system); for every fixed key the no-live-listener-displaced obligation applies',
 ]
 
 ANY = opaque_sort('Any')
@@ -456,7 +465,7 @@ LISTENER_STUBS = {
     'self.forward_local_port': may_raise(ret('opaque:Listener', 'tcp_listener', event='make_listener'), 'OSError'),
     'self.forward_local_path': may_raise(ret('opaque:Listener', 'unix_listener', event='make_listener'), 'OSError'),
     'callable': callable_stub,
-    'listener.get_port': get_port_stub,
+    'listener.get_port': get_port_stub, 'listener.close': lambda cx: listener_close_stub(cx), 'existing.close': lambda cx: listener_close_stub(cx),
     'self._report_global_response': report_stub,
 }
 
@@ -473,11 +482,14 @@ def the_listener(c):
 def registered_iff_success(keyf, payload_ok):
     def post(c):
         rep = reports(c)
-        if len(rep) != 1 or len(owner_events(c)) != 1:
+        if len(rep) != 1 or len(owner_events(c)) > 1:
             return z3.BoolVal(False)
         arg = rep[0][1][0]
         old, new = c.oldv('_local_listeners'), c.newv('_local_listeners')
         unchanged = z3.And(new.dom == old.dom, new.val == old.val)
+        if not owner_events(c):
+            # refused without consulting the application (always allowed): failure reply, table untouched
+            return z3.And(z3.Not(c.truthy(arg)), unchanged)
         lst = the_listener(c)
         r = owner_result(c)
         if lst is None:
@@ -488,6 +500,23 @@ def registered_iff_success(keyf, payload_ok):
         added = z3.And(new.dom == z3.Store(old.dom, key, True), new.val == z3.Store(old.val, key, lst.z))
         return z3.And(c.truthy(r),
                       z3.If(c.truthy(arg), z3.And(added, payload_ok(c, arg)), unchanged))
+    return post
+
+
+def no_live_listener_displaced(keyf, fixed_key):
+    """a success reply never overwrites the table entry of another live listener: the displaced one would be in no
+    table, so neither a cancel request nor connection cleanup could ever close it ("all listeners ... are
+    released when their connection ends").  Either the key was free or the displaced listener is closed.
+    Dynamic ports (port 0 requested) are left out: the operating system hands out a port that is not in use."""
+    def post(c):
+        rep = reports(c)
+        if len(rep) != 1:
+            return z3.BoolVal(False)
+        old = c.oldv('_local_listeners')
+        key = keyf(c)
+        displaced_closed = z3.Or([same_z(e[1][0], z3.Select(old.val, key)) for e in c.events('listener_close')] +
+                                 [z3.BoolVal(False)])
+        return z3.Implies(z3.And(c.truthy(rep[0][1][0]), fixed_key(c), z3.Select(old.dom, key)), displaced_closed)
     return post
 
 
@@ -512,9 +541,18 @@ def default_listener_args_ok(c):
     conj = []
     for x in c.calls('forward_local_port'):
         a = x['args']
-        conj += [same_z(a[0], c.arg('listen_host')), same_z(a[1], c.arg('listen_port'))]
+        # forward_local_port(listen_host, listen_port, dest_host, dest_port[, accept_handler]): the destination names
+        # later reported in forwarded-tcpip are the requested ones; a 5th argument is the application's callable
+        if len(a) not in (4, 5):
+            return z3.BoolVal(False)
+        conj += [same_z(a[0], c.arg('listen_host')), same_z(a[1], c.arg('listen_port')),
+                 same_z(a[2], c.arg('listen_host')), same_z(a[3], c.arg('listen_port'))]
+        if len(a) == 5:
+            r = owner_result(c)
+            conj.append(same_z(a[4], r.z) if isinstance(r, VOpaque) else z3.BoolVal(False))
     for x in c.calls('forward_local_path'):
-        conj.append(same_z(x['args'][0], c.arg('listen_path')))
+        conj.append(z3.And(z3.BoolVal(len(x['args']) == 2), same_z(x['args'][0], c.arg('listen_path')),
+                           same_z(x['args'][-1], c.arg('listen_path'))))
     return z3.And(conj) if conj else z3.BoolVal(True)
 
 
@@ -524,6 +562,7 @@ finish_port_forward = Spec(
     requires=lambda c: z3.And(z3.Not(c.is_none(c.oldv('_owner'))), c.arg('listen_port') >= 0,
                               c.arg('listen_port') < 2 ** 32),
     ensures=[('listener-registered-iff-success-reply', registered_iff_success(tcp_key, tcp_payload_ok)),
+             ('no-live-listener-displaced', no_live_listener_displaced(tcp_key, lambda c: c.arg('listen_port') != 0)),
              ('default-listener-on-requested-address', default_listener_args_ok)])
 
 finish_path_forward = Spec(
@@ -532,6 +571,8 @@ finish_path_forward = Spec(
     requires=lambda c: z3.Not(c.is_none(c.oldv('_owner'))),
     ensures=[('listener-registered-iff-success-reply',
               registered_iff_success(lambda c: c.arg('listen_path'), lambda c, arg: c.eq(arg, VBool(True)))),
+             ('no-live-listener-displaced', no_live_listener_displaced(lambda c: c.arg('listen_path'),
+                                                                        lambda c: z3.BoolVal(True))),
              ('default-listener-on-requested-address', default_listener_args_ok)])
 
 
@@ -816,48 +857,71 @@ fwd_resume_reading = Spec(
 def open_coro_stub(cx):
     """await self._coro(session_factory, *args): opens the channel.  While it is pending there is no peer, so
     data_received / eof_received (contracts above, no-peer case) may run any number of times: the buffer only
-    grows, EOF may become pending, nothing is written.  On success session_factory() has attached the peer
-    (SSHForwarder.__init__ -> set_peer) - see ASSUMPTIONS for the no-suspension window.  Failure: ChannelOpenError."""
+    grows, EOF may become pending, nothing is written.  The local connection may also be LOST meanwhile:
+    connection_lost() -> close() (contract above, no-peer case) drops the transport and closes nobody.
+    On success session_factory() has attached the peer (SSHForwarder.__init__ -> set_peer) - see ASSUMPTIONS for
+    the no-suspension window.  Failure: ChannelOpenError."""
     more = cx.fresh('bytes', 'early_data')
     eof = cx.fresh('bool', 'early_eof')
+    lost = cx.fresh('bool', 'closed_during_open')
     peer = cx.fresh('obj:Peer', 'peer')
     buf = VBytes(z3.Concat(cx.selff('_inpbuf').z, more.z))
     eofv = VBool(z3.Or(cx.selff('_eof_received').z, eof.z))
+    t = cx.selff('_transport')
+    if isinstance(t, VOpt):
+        tv = VOpt(z3.Or(t.isnone, lost.z), t.val)
+    elif t is VNone:
+        tv = VNone
+    else:
+        tv = VOpt(lost.z, t)
     ev = ('open', tuple(cx.args))
-    return [Out(sets={'_peer': peer, '_inpbuf': buf, '_eof_received': eofv}, event=ev),
-            Out(sets={'_inpbuf': buf, '_eof_received': eofv}, exc=VExc('ChannelOpenError'), event=ev)]
+    return [Out(sets={'_peer': peer, '_inpbuf': buf, '_eof_received': eofv, '_transport': tv}, event=ev),
+            Out(sets={'_inpbuf': buf, '_eof_received': eofv, '_transport': tv}, exc=VExc('ChannelOpenError'),
+                event=ev)]
 
 
-open_coro_stub.modifies = ('_peer', '_inpbuf', '_eof_received')
+open_coro_stub.modifies = ('_peer', '_inpbuf', '_eof_received', '_transport')
 
 
 def at_resume(c, field):
     x = [k for k in c.calls() if k['key'] == 'self._coro']
-    return x[0]['sets'][field] if x else None
+    return x[0]['sets'].get(field) if x else None
 
 
 def forward_post(c):
-    """after the open: everything buffered is passed on, once, in order, and BEFORE the EOF; a pending EOF is
-    passed on exactly once whether or not any data was buffered"""
+    """after the open.  Local side still open: everything buffered is passed on, once, in order, and BEFORE the
+    EOF; a pending EOF is passed on exactly once whether or not any data was buffered.  Local side closed while
+    the open was pending ("closing either end closes both"): the freshly attached peer is closed, nothing is
+    written into it, and it is detached."""
     buf, eof = at_resume(c, '_inpbuf'), at_resume(c, '_eof_received')
-    if buf is None:
+    peer, tr = at_resume(c, '_peer'), at_resume(c, '_transport')
+    if buf is None or not isinstance(peer, VRef):
         return z3.BoolVal(False)
     evs = [e[0] for e in c.events() if e[0] in ('peer_write', 'peer_eof')]
     order_ok = all(not (a == 'peer_eof' and b == 'peer_write') for a, b in zip(evs, evs[1:])) \
         and evs.count('peer_eof') <= 1
-    return z3.And(c.new('_inpbuf') == EMPTY,
-                  c.new('ghost_out') == z3.Concat(c.old('ghost_out'), buf.z),
-                  c.new('ghost_eof_out') == z3.If(eof.z, 1, 0),
-                  z3.BoolVal(order_ok), has_peer(c, old=False))
+    alive = z3.Not(c.is_none(tr))
+    pcl = c.events('peer_close')
+    relayed = z3.And(c.new('_inpbuf') == EMPTY,
+                     c.new('ghost_out') == z3.Concat(c.old('ghost_out'), buf.z),
+                     c.new('ghost_eof_out') == z3.If(eof.z, 1, 0),
+                     z3.BoolVal(order_ok and len(pcl) == 0), has_peer(c, old=False))
+    peer_closed = z3.And(z3.BoolVal(len(evs) == 0 and len(pcl) == 1 and isinstance(pcl[0][1][0], VRef) and
+                                    pcl[0][1][0].addr == peer.addr),
+                         z3.Not(has_peer(c, old=False)), z3.Not(has_transport(c, old=False)),
+                         c.new('ghost_out') == c.old('ghost_out'), c.new('ghost_eof_out') == 0)
+    return z3.If(alive, relayed, peer_closed)
 
 
 local_forward = Spec(
     PROP, 'forward', 'SSHLocalForwarder._forward', self_class='SSHLocalForwarder', params=dict(args='seq[any]'),
     classes=FWD_CLASSES,
-    stubs=dict(FWD_STUBS, **{'self._coro': open_coro_stub, 'self.connection_lost': noop('connection_lost')}),
+    stubs=dict({k: v for k, v in FWD_STUBS.items() if k != 'self.close'},
+               **{'self._coro': open_coro_stub, 'self.connection_lost': noop('connection_lost')}),
+    inline={'self.close': ('forward', 'SSHForwarder.close')},
     # a local forwarder starts without a peer and has not forwarded anything yet
     requires=lambda c: z3.And(z3.Not(has_peer(c)), c.old('ghost_eof_out') == 0, c.old('ghost_out') == EMPTY),
-    ensures=[('early-data-then-pending-eof-flushed', lambda c: z3.If(
+    ensures=[('early-data-then-pending-eof-flushed-or-peer-closed', lambda c: z3.If(
         z3.BoolVal(n(c, 'connection_lost') == 0), forward_post(c),
         z3.BoolVal(n(c, 'connection_lost') == 1 and n(c, 'peer_write') == 0 and n(c, 'peer_eof') == 0))),
         ('class-inv(ordered)', lambda c: ordered(c, old=False))])
@@ -1433,3 +1497,348 @@ for _sp in list(Spec.registry):
     _sp.ensures = [(l, _safe(f)) for l, f in _sp.ensures]
     _sp.always = [(l, _safe(f)) for l, f in _sp.always]
     _sp.raises = {k: (v if v is True else _safe(v)) for k, v in _sp.raises.items()}
+
+
+# =====================================================================================================
+#  6. release: "all listeners and relayed sockets are released when their connection ends"
+# =====================================================================================================
+SRV_SEQ = 'seq[opaque:Server]'
+FL_CLASSES = {'SSHForwardListener': {'_conn': 'opt[obj:Conn]', '_servers': SRV_SEQ, '_listen_key': 'opaque:Key',
+                                     '_listen_port': 'int', '_tunnel': 'opt[obj:Tunnel]',
+                                     'ghost_closed': SRV_SEQ},
+              'Conn': {}, 'Tunnel': {}}
+
+
+def server_close_stub(cx):
+    """asyncio.Server.close(): ghost log of the servers closed, in order"""
+    g = cx.selff('ghost_closed')
+    if not isinstance(cx.recv, VOpaque):
+        raise Unsupported('close() of something that is not one of the listener\'s servers')
+    return [Out(osets=[(cx.ex.self_ref, 'ghost_closed', VSeq(z3.Concat(g.z, z3.Unit(cx.recv.z)), g.elem))],
+                event=('server_close', (cx.recv,)))]
+
+
+server_close_stub.modifies = ('ghost_closed',)
+
+
+def unregister_stub(cx):
+    return [Out(event=('unregister', (cx.recv,) + tuple(cx.args)))]
+
+
+unregister_stub.modifies = ()
+
+
+def forward_listener_close_post(c):
+    """first close(): every asyncio server closed exactly once (in order), the listener takes itself out of the
+    connection's table under ITS OWN key, and forgets the connection; a second close() does nothing"""
+    un = c.events('unregister')
+    live = z3.Not(c.is_none(c.oldv('_conn')))
+    first = z3.And(c.new('ghost_closed') == z3.Concat(c.old('ghost_closed'), c.old('_servers')),
+                   z3.BoolVal(len(un) == 1) if len(un) != 1 else z3.And(
+                       is_recv(c, un[0], '_conn'), same_z(un[0][1][1], c.old('_listen_key'))),
+                   c.is_none(c.newv('_conn')))
+    again = z3.And(c.new('ghost_closed') == c.old('ghost_closed'), z3.BoolVal(len(un) == 0),
+                   c.is_none(c.newv('_conn')))
+    return z3.If(live, first, again)
+
+
+forward_listener_close = Spec(
+    PROP, 'listener', 'SSHForwardListener.close', self_class='SSHForwardListener', classes=FL_CLASSES,
+    stubs={'self._conn.close_forward_listener': unregister_stub, 'server.close': server_close_stub},
+    loops={1: LoopSpec(header='for server in self._servers', modifies=['ghost_closed'],
+                       invariant=lambda c: z3.And(
+                           c.new('ghost_closed') == z3.Concat(c.at_entry('ghost_closed'),
+                                                              z3.Extract(c.extra['iter'].z, 0, c.extra['i'])),
+                           c.new('_servers') == c.at_entry('_servers')))},
+    ensures=[('every-server-closed-once-and-unregistered-under-own-key(idempotent)', forward_listener_close_post)])
+
+
+# ---- client-side (remote) listeners: close() -> task _close() -> cancel request + unregister
+CL_FIELDS = {'_conn': 'opt[obj:ClientConn]', '_tunnel': 'opt[obj:Tunnel]', '_close_event': 'obj:Event',
+             '_listen_host': 'str', '_listen_port': 'int', '_listen_path': 'str'}
+CL_CLASSES = {'SSHClientListener': CL_FIELDS, 'SSHTCPClientListener': CL_FIELDS, 'SSHUNIXClientListener': CL_FIELDS,
+              'ClientConn': {}, 'Tunnel': {}, 'Event': {}}
+CL_STUBS = {
+    'self._tunnel.close': recv_event_stub('tunnel_close'),
+    'self._close': ret('opaque:Coroutine', 'close_coro', event='close_coro'),
+    'self._conn.create_task': recv_event_stub('create_task'),
+    'self._conn.close_client_tcp_listener': recv_event_stub('cancel_remote'),
+    'self._conn.close_client_unix_listener': recv_event_stub('cancel_remote'),
+    'self._close_event.set': recv_event_stub('closed_event'),
+}
+CL_INLINE = {'super().close': ('listener', 'SSHListener.close'),
+             'super()._close': ('listener', 'SSHClientListener._close')}
+
+
+def client_listener_close_post(c):
+    ct, tc = c.events('create_task'), c.events('tunnel_close')
+    live = z3.Not(c.is_none(c.oldv('_conn')))
+    return z3.And(
+        z3.If(live, z3.BoolVal(len(ct) == 1 and n(c, 'close_coro') == 1) if len(ct) != 1 or n(c, 'close_coro') != 1
+              else z3.And(is_recv(c, ct[0], '_conn'),
+                          same_z(ct[0][1][1], [x for x in c.calls('_close')][0]['ret'].z)),
+              z3.BoolVal(len(ct) == 0)),
+        z3.If(z3.Not(c.is_none(c.oldv('_tunnel'))),
+              z3.BoolVal(len(tc) == 1) if len(tc) != 1 else is_recv(c, tc[0], '_tunnel'), z3.BoolVal(len(tc) == 0)))
+
+
+client_listener_close = Spec(
+    PROP, 'listener', 'SSHClientListener.close', self_class='SSHClientListener', classes=CL_CLASSES,
+    stubs=dict(CL_STUBS), inline=dict(CL_INLINE),
+    ensures=[('close-task-started-once-while-registered(idempotent)', client_listener_close_post)])
+
+
+def remote_close_post(keyf):
+    """_close(): the remote listener is cancelled under ITS OWN address exactly once, the waiters are released and
+    the connection is forgotten (a second _close() sends nothing)"""
+    def post(c):
+        cr = c.events('cancel_remote')
+        live = z3.Not(c.is_none(c.oldv('_conn')))
+        own = z3.BoolVal(len(cr) == 1) if len(cr) != 1 else z3.And(
+            is_recv(c, cr[0], '_conn'), z3.BoolVal(len(cr[0][1]) == 1 + len(keyf(c))),
+            *[same_z(a, k) for a, k in zip(cr[0][1][1:], keyf(c))])
+        return z3.And(z3.If(live, own, z3.BoolVal(len(cr) == 0)), c.is_none(c.newv('_conn')),
+                      z3.BoolVal(n(c, 'closed_event') == 1))
+    return post
+
+
+tcp_client_listener_close = Spec(
+    PROP, 'listener', 'SSHTCPClientListener._close', self_class='SSHTCPClientListener', classes=CL_CLASSES,
+    stubs=dict(CL_STUBS), inline=dict(CL_INLINE),
+    ensures=[('remote-listener-cancelled-once-under-own-key', remote_close_post(
+        lambda c: [c.old('_listen_host'), c.old('_listen_port')]))])
+
+unix_client_listener_close = Spec(
+    PROP, 'listener', 'SSHUNIXClientListener._close', self_class='SSHUNIXClientListener', classes=CL_CLASSES,
+    stubs=dict(CL_STUBS), inline=dict(CL_INLINE),
+    ensures=[('remote-listener-cancelled-once-under-own-key', remote_close_post(lambda c: [c.old('_listen_path')]))])
+
+
+# ---- the connection's side of unregistering
+RL_TCP = {'SSHClientConnection': {'_remote_listeners': 'dict[' + TCP_KEY + ',opaque:Listener]',
+                                  '_dynamic_remote_listeners': 'dict[str,opaque:Listener]'}}
+RL_UNIX = {'SSHClientConnection': {'_remote_listeners': 'dict[str,opaque:Listener]'}}
+LL_ANY = {'SSHConnection': {'_local_listeners': 'dict[opaque:Key,opaque:Listener]'}}
+
+
+def request_stub(cx):
+    return [Out(ret=cx.fresh('any', 'reply'), event=('global_request', tuple(cx.args)))]
+
+
+request_stub.modifies = ()
+
+
+def removed_only(c, field, key):
+    old, new = c.oldv(field), c.newv(field)
+    if not isinstance(new, VMap):
+        return z3.BoolVal(False)
+    k = z3.Const(fresh_name('k'), sort_of(old.kt))
+    return z3.And(z3.Not(z3.Select(new.dom, key)),
+                  z3.ForAll([k], z3.Implies(k != key, z3.And(z3.Select(new.dom, k) == z3.Select(old.dom, k),
+                                                             z3.Select(new.val, k) == z3.Select(old.val, k)))))
+
+
+close_forward_listener = Spec(
+    PROP, 'connection', 'SSHConnection.close_forward_listener', self_class='SSHConnection',
+    params=dict(listen_key='opaque:Key'), classes=LL_ANY,
+    ensures=[('exactly-that-key-unregistered', lambda c: removed_only(c, '_local_listeners', c.arg('listen_key')))])
+
+
+def cancel_request_sent(c, reqname, nargs):
+    gr = c.events('global_request')
+    if len(gr) != 1 or len(gr[0][1]) != 1 + nargs:
+        return z3.BoolVal(False)
+    return same_z(gr[0][1][0], VBytes(reqname).z)
+
+
+close_client_tcp_listener = Spec(
+    PROP, 'connection', 'SSHClientConnection.close_client_tcp_listener', self_class='SSHClientConnection',
+    params=dict(listen_host='str', listen_port='int'), classes=RL_TCP,
+    stubs={'self._make_global_request': request_stub},
+    requires=lambda c: z3.And(c.arg('listen_port') >= 0, c.arg('listen_port') < 2 ** 32),
+    ensures=[('cancel-sent-and-exactly-that-listener-unregistered', lambda c: z3.And(
+        cancel_request_sent(c, b'cancel-tcpip-forward', 2),
+        removed_only(c, '_remote_listeners',
+                     to_z3(VTuple([c.argv('listen_host'), c.argv('listen_port')]), TCP_KEY)))),
+        ('dynamic-entry-dropped-only-if-it-is-that-listener', lambda c: (lambda d0, d1, h, m, key: z3.And(
+            z3.Implies(z3.Select(d1.dom, h), z3.And(z3.Select(d0.dom, h), z3.Select(d1.val, h) == z3.Select(d0.val, h))),
+            z3.Implies(z3.And(z3.Select(d0.dom, h), z3.Not(z3.Select(d1.dom, h))),
+                       z3.And(z3.Select(m.dom, key), z3.Select(d0.val, h) == z3.Select(m.val, key)))))(
+            c.oldv('_dynamic_remote_listeners'), c.newv('_dynamic_remote_listeners'), c.arg('listen_host'),
+            c.oldv('_remote_listeners'),
+            to_z3(VTuple([c.argv('listen_host'), c.argv('listen_port')]), TCP_KEY)))])
+
+close_client_unix_listener = Spec(
+    PROP, 'connection', 'SSHClientConnection.close_client_unix_listener', self_class='SSHClientConnection',
+    params=dict(listen_path='str'), classes=RL_UNIX,
+    stubs={'self._make_global_request': request_stub},
+    ensures=[('cancel-sent-and-exactly-that-listener-unregistered', lambda c: z3.And(
+        cancel_request_sent(c, b'cancel-streamlocal-forward@openssh.com', 1),
+        removed_only(c, '_remote_listeners', c.arg('listen_path'))))])
+
+
+# ---- connection end: the client / server _cleanup overrides (listener-closing clause only; the rest is C09)
+def values_stub(cx):
+    """<dict>.values(): a view; only list(view) is used"""
+    return VTag('dictvalues', payload=cx.ex.deref(cx.st, cx.recv))
+
+
+values_stub.modifies = ()
+
+
+def list_of_values_stub(cx):
+    """list(d.values()) for a symbolic dict d = (dom, val), by its definition: a fresh list L in which every
+    element is the value of some key and every key's value occurs (at position pos(key))"""
+    v = cx.args[0]
+    if not (isinstance(v, VTag) and v.tag == 'dictvalues' and isinstance(v.payload, VMap)):
+        raise Unsupported('list() of something else than <symbolic dict>.values()')
+    m = v.payload
+    L = cx.fresh('seq[' + repr(m.vt) + ']', 'values')
+    ks = sort_of(m.kt)
+    key_at = z3.Function(fresh_name('key_at'), IntS, ks)
+    pos = z3.Function(fresh_name('pos'), ks, IntS)
+    i, k = z3.Int(fresh_name('i')), z3.Const(fresh_name('k'), ks)
+    ln = z3.Length(L.z)
+    ax = [z3.ForAll([i], z3.Implies(z3.And(0 <= i, i < ln),
+                                    z3.And(z3.Select(m.dom, key_at(i)), z3.Select(m.val, key_at(i)) == L.z[i],
+                                           pos(key_at(i)) == i))),
+          z3.ForAll([k], z3.Implies(z3.Select(m.dom, k),
+                                    z3.And(0 <= pos(k), pos(k) < ln, L.z[pos(k)] == z3.Select(m.val, k),
+                                           key_at(pos(k)) == k)))]
+    return [Out(ret=L, assume=ax)]
+
+
+list_of_values_stub.modifies = ()
+CLOSED_MAP = 'dict[opaque:Listener,bool]'
+
+
+def remote_listener_close_stub(cx):
+    """tcp_listener.close() (contract of SSHClientListener.close above): ghost set of the listeners closed"""
+    g = cx.selff('ghost_listener_closed')
+    if not isinstance(cx.recv, VOpaque):
+        raise Unsupported('close() of something that is not a registered listener')
+    return [Out(osets=[(cx.ex.self_ref, 'ghost_listener_closed',
+                        VMap(z3.Store(g.dom, cx.recv.z, True), g.val, g.kt, g.vt))],
+                event=('listener_close', (cx.recv,)))]
+
+
+remote_listener_close_stub.modifies = ('ghost_listener_closed',)
+
+
+def all_remote_listeners_closed(c):
+    m0, g = c.oldv('_remote_listeners'), c.newv('ghost_listener_closed')
+    k = z3.Const(fresh_name('k'), sort_of(m0.kt))
+    return z3.ForAll([k], z3.Implies(z3.Select(m0.dom, k), z3.Select(g.dom, z3.Select(m0.val, k))))
+
+
+def empty_dict_lemma(c):
+    """definitional: a dict is falsy exactly when it has no key (instance for the pre-state table)"""
+    m0 = c.oldv('_remote_listeners')
+    k = z3.Const(fresh_name('k'), sort_of(m0.kt))
+    return [z3.Implies(z3.Not(nonempty_fn(m0.dom)(m0.dom)), z3.ForAll([k], z3.Not(z3.Select(m0.dom, k))))]
+
+
+def table_emptied(c, field):
+    v = c.ex.deref(c.new_state, c.newv(field))
+    if isinstance(v, VDict):
+        return z3.BoolVal(len(v.items) == 0)
+    if isinstance(v, VMap):
+        k = z3.Const(fresh_name('k'), sort_of(v.kt))
+        return z3.ForAll([k], z3.Not(z3.Select(v.dom, k)))
+    return z3.BoolVal(False)
+
+
+client_cleanup = Spec(
+    PROP, 'connection', 'SSHClientConnection._cleanup', self_class='SSHClientConnection',
+    params=dict(exc='opt[opaque:Exc]'),
+    classes={'SSHClientConnection': {'_agent': 'opt[obj:Agent]',
+                                     '_remote_listeners': 'dict[' + TCP_KEY + ',opaque:Listener]',
+                                     '_dynamic_remote_listeners': 'dict[str,opaque:Listener]',
+                                     'ghost_listener_closed': CLOSED_MAP}, 'Agent': {}},
+    stubs={'self._agent.close': recv_event_stub('agent_close'),
+           'self._remote_listeners.values': values_stub, 'list': list_of_values_stub,
+           'tcp_listener.close': remote_listener_close_stub,
+           'super()._cleanup': noop('base_cleanup')},
+    loops={1: LoopSpec(header='for tcp_listener in list(self._remote_listeners.values())',
+                       modifies=['ghost_listener_closed'],
+                       invariant=lambda c: (lambda L, i, g, j: z3.And(
+                           z3.ForAll([j], z3.Implies(z3.And(0 <= j, j < i), z3.Select(g.dom, L[j]))),
+                           c.newv('_remote_listeners').dom == c.oldv('_remote_listeners').dom,
+                           c.newv('_remote_listeners').val == c.oldv('_remote_listeners').val))(
+                           c.extra['iter'].z, c.extra['i'], c.newv('ghost_listener_closed'),
+                           z3.Int(fresh_name('j'))))},
+    lemmas=empty_dict_lemma,
+    ensures=[('every-remote-listener-closed-at-connection-end', all_remote_listeners_closed),
+             ('tables-emptied', lambda c: z3.Or(
+                 z3.Not(c.truthy(c.oldv('_remote_listeners'), c.old_state)),
+                 z3.And(table_emptied(c, '_remote_listeners'), table_emptied(c, '_dynamic_remote_listeners')))),
+             ('then-the-common-cleanup-runs-once', lambda c: z3.BoolVal(
+                 n(c, 'base_cleanup') == 1 and c.events()[-1][0] == 'base_cleanup'))])
+
+server_cleanup = Spec(
+    PROP, 'connection', 'SSHServerConnection._cleanup', self_class='SSHServerConnection',
+    params=dict(exc='opt[opaque:Exc]'),
+    classes={'SSHServerConnection': {'_agent_listener': 'opt[obj:AgentListener]'}, 'AgentListener': {}},
+    stubs={'self._agent_listener.close': recv_event_stub('agent_listener_close'),
+           'super()._cleanup': noop('base_cleanup')},
+    ensures=[('agent-listener-closed-once-and-forgotten', lambda c: z3.And(
+        (lambda evs: z3.If(z3.Not(c.is_none(c.oldv('_agent_listener'))),
+                           z3.BoolVal(len(evs) == 1) if len(evs) != 1 else is_recv(c, evs[0], '_agent_listener'),
+                           z3.BoolVal(len(evs) == 0)))(c.events('agent_listener_close')),
+        c.is_none(c.newv('_agent_listener')))),
+        ('then-the-common-cleanup-runs-once', lambda c: z3.BoolVal(
+            n(c, 'base_cleanup') == 1 and c.events()[-1][0] == 'base_cleanup'))])
+
+
+
+# =====================================================================================================
+#  7. the attach step (writers of _peer outside the relay functions)
+# =====================================================================================================
+ATTACH_FIELDS = dict(FWD_FIELDS, _extra='any')
+ATTACH_CLASSES = {'SSHForwarder': ATTACH_FIELDS, 'Transport': {},
+                  'Peer': {'_inpbuf': 'bytes', '_eof_received': 'bool', '_peer': 'opt[obj:Other]'}, 'Other': {}}
+
+
+def set_peer_event_stub(cx):
+    return [Out(event=('set_peer', (cx.recv,) + tuple(cx.args)))]
+
+
+set_peer_event_stub.modifies = ()
+
+
+def peer_untouched(c):
+    p = c.argv('peer')
+    if not isinstance(p, VOpt) or not isinstance(p.val, VRef):
+        return z3.BoolVal(p is VNone)
+    r0, r1 = c.old_state.rec(p.val), c.new_state.rec(p.val)
+    return z3.And([c.eq(r1.fields[f], r0.fields[f]) for f in r0.fields])
+
+
+def init_post(c):
+    sp = c.events('set_peer')
+    p = c.argv('peer')
+    given = z3.Not(c.is_none(p))
+    told = z3.BoolVal(len(sp) == 1 and isinstance(p, VOpt) and isinstance(sp[0][1][0], VRef) and
+                      sp[0][1][0].addr == p.val.addr and len(sp[0][1]) == 2 and isinstance(sp[0][1][1], VRef) and
+                      sp[0][1][1].addr == c.self_ref.addr)
+    return z3.And(c.new('_inpbuf') == EMPTY, z3.Not(c.new('_eof_received')), c.is_none(c.newv('_transport')),
+                  c.eq(c.newv('_peer'), p), z3.If(given, told, z3.BoolVal(len(sp) == 0)), peer_untouched(c))
+
+
+fwd_init = Spec(
+    PROP, 'forward', 'SSHForwarder.__init__', self_class='SSHForwarder',
+    params=dict(peer='opt[obj:Peer]', extra='opt[opaque:Extra]'), classes=ATTACH_CLASSES,
+    stubs={'peer.set_peer': set_peer_event_stub},
+    ensures=[('fresh-forwarder:empty-buffer,linked,peer-told-once,peer-data-untouched', init_post),
+             ('class-inv(ordered)', lambda c: ordered(c, old=False))])
+
+fwd_set_peer = Spec(
+    PROP, 'forward', 'SSHForwarder.set_peer', self_class='SSHForwarder', params=dict(peer='obj:Peer'),
+    classes=ATTACH_CLASSES,
+    ensures=[('only-the-link-changes', lambda c: z3.And(
+        c.eq(c.newv('_peer'), c.argv('peer')), c.new('_inpbuf') == c.old('_inpbuf'),
+        c.new('_eof_received') == c.old('_eof_received'), c.new('ghost_out') == c.old('ghost_out'),
+        c.new('ghost_eof_out') == c.old('ghost_eof_out'), c.eq(c.newv('_transport'), c.oldv('_transport'))))])
+
+for _sp in (fwd_init, fwd_set_peer):
+    _sp.ensures = [(l, _safe(f)) for l, f in _sp.ensures]
